@@ -278,6 +278,11 @@ def run(repo, rep):
     rep.run_borrowed(c10, {"C10-d": "C06-m"}, repo)
     rep.run_borrowed(c15, {"C15-e": "C06-d"}, repo, only_sites=("register_command_stream_util", "register_command_stream_generator", "architecture_features", "architecture_allocator"))
     rep.run_borrowed(c04, {"C04-a": "C06-l"}, repo)
+    # the registers of an operation are a function of that operation: the command stream modules keep no process-wide memo of earlier results
+    from . import c14
+
+    rep.clause("C06-v", "the registers emitted for an operation depend on that operation alone: the command stream modules keep no process-wide store written while generating (memo tables with incomplete keys) [rule shared with C14-a]")
+    rep.run_borrowed(c14, {"C14-a": "C06-v"}, repo, only_sites=("register_command_stream_generator", "register_command_stream_util", "high_level_command_to_npu_op", "high_level_command_stream_generator", "architecture_allocator"))
     # ACC_FORMAT / AB_START follow the accumulator type function [shared with C15-c]
     rep.run_borrowed(c15, {"C15-c": "C06-m"}, repo, only_sites=("_acc_type",))
     # a flag that decides a register bit in one call and the emission of a register afterwards is fully decided before its first use
@@ -906,6 +911,9 @@ def rule_bits(repo, rep, gen, api):
             looked = {ax for ax in ("height", "width", "depth") for t, d in p.decisions if "!=" in t and f"shape.{ax}" in t}
             rep.check(looked == {"height", "width", "depth"}, "C06-c", site, f"height, width and depth are each compared on the path {[d for t, d in p.decisions if '!=' in t]}",
                       f"only {sorted(looked)} compared on {p.decisions}: the remaining dimension cannot get its broadcast bit on this path (the hardware then reads the full extent of a size-1 operand)")
+        # the operand order is a property of the operation whatever IFM2 is (tensor or scalar): every path decides it
+        rep.check(any("reversed_operands" in t for t, d in p.decisions), "C06-c", site, f"reversed_operands is read on the path {[t[:40] for t, d in p.decisions if d][:3]}",
+                  f"the path {p.decisions} never looks at npu_op.reversed_operands: the operand-order bit cannot be set on it (a scalar IFM2 with reversed operands, e.g. scalar - x, is emitted as x - scalar)")
         b = v if isinstance(v, BV) else BV.const(int(v))
         ok = all(tuple(_field(b, spec, k)) == _bits(x, 1) for k, x in want.items()) and all(
             x == 0 for x in _field(b, spec, "reserved0") + _field(b, spec, "reserved1"))
